@@ -294,7 +294,8 @@ def r15_3(ctx, rep, roles):
         if row.exit != "return":
             continue
         # rows that return from inside the loop (iterator yielded Some) with a condition on the iterated prefix
-        it_some = [c for c in row.cond if c[0] == "variant" and c[3] and c[2] == "Some" and c[1][0] == "call" and "Range" in c[1][1] and c[1][1].endswith("::next")]
+        it_some = [c for c in row.cond if c[0] == "variant" and c[3] and c[2] == "Some" and c[1][0] == "call" and c[1][1].endswith("::next") and (
+            "Range" in c[1][1] or any(y[0] == "call" and sym.strip_all_generics(y[1]).split("::")[-1] == "range" for y in T.subterms(T.resolve_locals(eng, row.store, c[1]))))]
         if not it_some:
             continue
         item = sym.proj(sym.proj(it_some[-1][1], ("v", "Some")), F(sym.OPTION, "0"))
